@@ -383,7 +383,11 @@ class World(object):
             if self.c_child_b:
                 ev.append(('cancel_child',))
         elif kind == 'unsched':
-            if self.max_completes is None or \
+            if self.scn.get('mass'):
+                # all running tasks end together: one event, many messages
+                if self.oracle.running():
+                    ev.append(('complete_all',))
+            elif self.max_completes is None or \
                self.n_completes < self.max_completes:
                 for uid in self.oracle.running():
                     ev.append(('complete', uid))
@@ -428,6 +432,21 @@ class World(object):
                 # the executor publishes the task on the unschedule pubsub
                 self.parent.unschedule_cb(rpc.AGENT_UNSCHEDULE_PUBSUB,
                                           seams.wire(task))
+
+            elif kind == 'complete_all':
+                # 20 single notifications, then bulks of 100 (watcher bulks)
+                uids  = list(self.oracle.running())
+                sizes = [1] * min(20, len(uids))
+                while sum(sizes) < len(uids):
+                    sizes.append(min(100, len(uids) - sum(sizes)))
+                i = 0
+                for n in sizes:
+                    tasks = [self.oracle.complete(self, u)
+                             for u in uids[i:i + n]]
+                    i += n
+                    self.parent.unschedule_cb(rpc.AGENT_UNSCHEDULE_PUBSUB,
+                                              seams.wire(tasks if n > 1
+                                                         else tasks[0]))
 
             elif kind == 'cancel_parent':
                 self.c_parent = False
